@@ -463,6 +463,7 @@ def queue_oracle(case, steps):
 
     shadow = Counter()
     last_pop = None  # key of the previous pop while no add/retime/remove intervened
+    dirty = False  # a queued event was re-timed in place and the heap not yet rebuilt (API misuse)
     for n, (op, st) in enumerate(zip(case["ops"], steps)):
         o, out, qids = op["op"], st["out"], st["q"]
         if o == "add":
@@ -472,12 +473,20 @@ def queue_oracle(case, steps):
             if shadow[op["e"]] > 0:
                 if out is not None:
                     bad.append(("queue:remove-of-queued-event-raised", {"step": n, "out": out}))
+                else:
+                    dirty = False  # remove_event re-heapifies
                 shadow[op["e"]] -= 1
             elif out != {"err": "ValueError"}:
                 bad.append(("queue:remove-of-absent-event-not-refused", {"step": n, "out": out}))
         elif o in ("retime", "retime_reheapify"):
             specs[op["e"]]["time"] = op["t"]
             last_pop = None
+            if o == "retime_reheapify":
+                dirty = False
+            elif shadow[op["e"]] > 0:
+                dirty = True
+        elif o == "reheapify":
+            dirty = False
         elif o == "next":
             if sum(shadow.values()) == 0:
                 if out != {"err": "IndexError"}:
@@ -486,13 +495,13 @@ def queue_oracle(case, steps):
                 bad.append(("queue:pop-returned-non-pending", {"step": n, "out": out}))
             else:
                 shadow[out] -= 1
-                for y in shadow.elements():
+                for y in () if dirty else shadow.elements():
                     if key(y) < key(out):
                         bad.append((f"queue:pop-not-minimal {tdesc(out, y)}", {"step": n, "popped": out, "smaller_pending": y}))
                         break
-                if last_pop is not None and key(out) < last_pop:
+                if not dirty and last_pop is not None and key(out) < last_pop:
                     bad.append(("queue:pops-decrease", {"step": n, "popped": out}))
-                last_pop = key(out)
+                last_pop = None if dirty else key(out)
         elif o == "peek":
             if sum(shadow.values()) == 0:
                 if out is not None:
@@ -500,7 +509,7 @@ def queue_oracle(case, steps):
             elif not isinstance(out, int) or shadow[out] <= 0:
                 bad.append(("queue:peek-returned-non-pending", {"step": n, "out": out}))
             else:
-                for y in shadow.elements():
+                for y in () if dirty else shadow.elements():
                     if key(y) < key(out):
                         bad.append((f"queue:peek-not-minimal {tdesc(out, y)}", {"step": n, "peeked": out, "smaller_pending": y}))
                         break
@@ -605,8 +614,8 @@ def gen_queue_case(rng, max_ops=60, wellformed=True, misuse=False):
             t, rp = rand_time()
             if misuse and rng.random() < 0.5:
                 ops.append({"op": "retime", "e": e, "t": t, "repr": rp})
-            elif queued[e] == 0 and rng.random() < 0.5:
-                ops.append({"op": "retime", "e": e, "t": t, "repr": rp})  # harmless: not queued
+            elif not any(p["op"] == "add" and p["e"] == e for p in ops) and rng.random() < 0.5:
+                ops.append({"op": "retime", "e": e, "t": t, "repr": rp})  # harmless: never queued so far
             else:
                 ops.append({"op": "retime_reheapify", "e": e, "t": t, "repr": rp})
         elif r < 0.85:
@@ -627,7 +636,7 @@ def gen_queue_case(rng, max_ops=60, wellformed=True, misuse=False):
         "suite": "queue",
         "events": events,
         "ops": ops,
-        "judge": wellformed and not misuse,
+        "judge": wellformed,
         "stream": "wellformed" if wellformed and not misuse else ("misuse" if misuse else "illformed"),
     }
 
